@@ -141,7 +141,7 @@ def gen_reshape(tier):
     t = tier == "thorough"
     shapes = [(4,), (6,), (8,), (0,), (2, 3), (3, 2), (2, 2), (1, 4), (4, 1), (2, 4), (3, 4), (0, 2), (2, 0), (2, 2, 2), (1, 2, 3), (2, 3, 2), (2, 1, 3)]
     if t:
-        shapes += [(12,), (4, 3), (4, 4), (2, 6), (3, 2, 2), (2, 2, 3), (2, 2, 2, 2)]
+        shapes += [(9,), (10,), (4, 3), (4, 4), (2, 6), (3, 2, 2), (2, 2, 3), (2, 2, 2, 2)]
     for shp in shapes:
         targets = reshape_targets(shp, 4 if t else 3)
         for ch in all_chunkings(shp):
@@ -185,7 +185,11 @@ def gen_squeeze(tier):
         nd = len(shp)
         for ch in all_chunkings(shp):
             yield ("squeeze", shp, ch, None)
-            for a in range(-nd - 1, nd + 1):
+            if nd == 0:
+                # NumPy accepts axis 0 / -1 on a 0-d array only as a backward-compatibility quirk (any other library, dask
+                # included, treats it as out of bounds): not part of the alphabet.  axis=() is.
+                yield ("squeeze", shp, ch, ())
+            for a in range(-nd - 1, nd + 1) if nd else ():
                 yield ("squeeze", shp, ch, a)
                 yield ("squeeze", shp, ch, (a,))
             for ab in itertools.combinations(range(-nd, nd), 2):
@@ -311,9 +315,16 @@ def gen_bcast(tier):
             for ch in all_chunkings(src):
                 yield ("broadcast_to", src, ch, tg, None)
                 if len(tg) and all(tg):
-                    yield ("broadcast_to", src, ch, tg, tuple((1,) * s for s in tg))
-                    yield ("broadcast_to", src, ch, tg, tuple((s,) for s in tg))
-                    yield ("broadcast_to", src, ch, tg, 2)
+                    # chunks= may only choose the chunking of NEW axes and of axes that had size 1 (documented ValueError otherwise);
+                    # the other axes keep the source chunking
+                    lead = len(tg) - len(src)
+                    free = [i < lead or src[i - lead] == 1 for i in range(len(tg))]
+                    for style in ("ones", "single", "two"):
+                        hint = tuple(
+                            ((1,) * n if style == "ones" else ((n,) if style == "single" else ((2,) * (n // 2) + ((n % 2,) if n % 2 else ())))) if f else ch[i - lead]
+                            for i, (n, f) in enumerate(zip(tg, free))
+                        )
+                        yield ("broadcast_to", src, ch, tg, hint)
     # incompatible targets must not silently succeed (NumPy raises ValueError)
     for src, tg in [((3,), (2,)), ((2, 3), (3,)), ((2, 3), (2, 2)), ((2, 1), (3, 3)), ((3,), (3, 2))]:
         for ch in all_chunkings(src):
@@ -430,16 +441,18 @@ def gen_shuffle(tier):
             seqs = list(itertools.permutations(range(n)))
             if n > 4:
                 seqs = seqs[:: len(seqs) // 24]
+            nperm = len(seqs)
             for L in range(1, min(n, 3) + 1):
                 for s in itertools.product(range(n), repeat=L):
                     if len(set(s)) < L or L < n:
                         seqs.append(s)  # duplicates and proper subsets
             for ch in all_chunkings(shp):
-                for s in seqs:
+                for si, s in enumerate(seqs):
                     for g in groupings(s):
                         yield ("shuffle", shp, ch, g, a)
-                        if len(shp) > 1:
-                            yield ("shuffle", shp, ch, g, a - len(shp))
+                    if si < nperm:  # negative axis: whole permutations as one group / one group per element
+                        yield ("shuffle", shp, ch, (tuple(s),), a - len(shp))
+                        yield ("shuffle", shp, ch, tuple((i,) for i in s), a - len(shp))
 
 
 PAD_MODES = [
@@ -484,6 +497,8 @@ def gen_pad(tier):
     for shp in [(2, 3), (3, 2)] + ([(3, 3), (1, 3)] if t else []):
         for ch in all_chunkings(shp):
             for mode, kw in PAD_MODES:
+                if kw and kw[0][0] == "reflect_type" and not t:
+                    continue  # reflect_type variants: 1-d and 3-d shapes only in the quick tier
                 for w in w2:
                     if w == ((0, 0), (0, 0)) and mode != "constant":
                         continue
@@ -523,8 +538,59 @@ def cases_of(shard, tier):
 
 
 # --------------------------------------------------------------------------------------------- evaluation
+# deliberate, explicitly worded input refusals (G4: counted as rejected, never silent): (family, message fragment)
+REFUSALS = [
+    ("roll", "Must have the same number of shifts as axes"),  # scalar shift with a tuple of axes is refused by an explicit check
+    ("broadcast_to", "new chunks must either be along a new dimension"),  # illegal chunks= hint
+]
+
+
+def pad_widths(shape, w):
+    return np.full((len(shape), 2), w) if isinstance(w, int) else np.broadcast_to(np.asarray(w), (len(shape), 2))
+
+
+def n_blocks(ch):
+    return int(np.prod([len(c) for c in ch])) if ch else 1
+
+
 def known_class(case):
     """narrow input classes of recorded findings (C24.findings.json); appended to the finding key"""
+    op = case[0]
+    if op == "reshape":
+        if int(np.prod(case[1])) == 0 and n_blocks(case[2]) > 1:
+            return "zero-size-multichunk"
+    elif op == "concat":
+        if case[1] == "concatenate" and case[2] is None and any(p[1] == "d" and int(np.prod(p[0])) == 0 and n_blocks(p[2]) > 1 for p in case[3]):
+            return "zero-size-multichunk"
+    elif op == "transpose":
+        if case[3] == "method" and case[4] is None:
+            return "positional-None"
+    elif op == "repeat":
+        if case[3] >= 2 and case[1][case[4] if case[4] is not None else 0] == 0:
+            return "empty-axis"
+    elif op == "take":
+        if case[5] == "nd2":
+            return "index-2d"
+    elif op == "tri":
+        if len(case[2]) == 1:
+            return "1d-input"
+    elif op == "shuffle":
+        if case[4] < 0:
+            return "negative-axis"
+    elif op == "pad":
+        shape, w, mode, kw = case[1], case[3], case[4], dict(case[5])
+        wn = pad_widths(shape, w)
+        if mode in ("reflect", "symmetric", "wrap"):
+            lim = [s - 1 if mode == "reflect" else s for s in shape]
+            if any(max(l, r) > m for (l, r), m in zip(wn, lim)):
+                return "width-exceeds-axis"
+            if kw.get("reflect_type") == "odd":
+                return "reflect-odd"
+        if 0 in shape:
+            if mode == "constant":
+                return "empty-axis-constant"
+            if mode in ("maximum", "minimum", "mean"):
+                return "empty-axis-stat"
     return None
 
 
@@ -664,7 +730,7 @@ def build(case, seed):
         if mode == "empty":
 
             def post(a):  # interior only
-                wn = np.broadcast_to(np.asarray(w), (len(shape), 2)) if not isinstance(w, int) else np.full((len(shape), 2), w)
+                wn = pad_widths(shape, w)
                 sl = tuple(slice(int(l), a.shape[i] - int(r)) for i, (l, r) in enumerate(wn))
                 return a[sl]
 
@@ -711,7 +777,7 @@ def run_case(case, ctx):
             ctx.count("both_raise")
         return
     if d_exc is not None:
-        if isinstance(d_exc, NotImplementedError):
+        if isinstance(d_exc, NotImplementedError) or any(op == f and frag in str(d_exc) for f, frag in REFUSALS):
             ctx.count("rejected")
             ctx.count(f"rejected_{op}")
             return
